@@ -11,6 +11,7 @@ closed-form crystal.
 from __future__ import annotations
 
 import ast
+import re
 
 import sympy as sp
 
@@ -110,32 +111,7 @@ def run(rep: core.Report):
     ok_rows = ok_rows and len(shape_t) == 1 and core.src(shape_t[0].test).replace(" ", "") == "fc.shape[0]==fc.shape[1]" and core.src(shape_t[0].body[0]) == "is_compact_fc = False"
     rep.instance("R02c", PYDM, "DynamicalMatrix._run_py_dynamical_matrix", "row of the force constants: fc[s_i] for the full layout, fc[i] for the compact one", ok_rows, "the row of the first atom is taken from the wrong layout", line=fwd.lineno)
     # ---- R02d ------------------------------------------------------------
-    fm = core.find_def(PYDM, "_get_fc_elements_mapping")
-    core.require_names(fm, ["p2s_map", "s2p_map", "p2p_map", "fc"], f"{PYDM}::_get_fc_elements_mapping")
-    test = [n_ for n_ in fm.body if isinstance(n_, ast.If)]
-    if len(test) != 1:
-        raise AnalysisError("R02d: _get_fc_elements_mapping lost its layout test")
-    full_first = core.src(test[0].test).replace(" ", "") == "fc.shape[0]==fc.shape[1]"
-    rf = [r.value for r in ast.walk(test[0]) if isinstance(r, ast.Return) and r in test[0].body]
-    rc = [r.value for r in ast.walk(test[0]) if isinstance(r, ast.Return) and r not in test[0].body]
-
-    def strip_arr(e):
-        while isinstance(e, ast.Call) and core.src(e.func) in ("np.array", "np.asarray") and e.args:
-            e = e.args[0]
-        return e
-
-    ok_full = full_first and len(rf) == 1 and isinstance(rf[0], ast.Tuple) and [core.src(strip_arr(x)) for x in rf[0].elts] == ["p2s_map", "s2p_map"]
-    rep.instance("R02d", PYDM, "_get_fc_elements_mapping", "full layout: (p2s_map, s2p_map)", ok_full, "the full layout does not hand the kernel (p2s_map, s2p_map)", line=fm.lineno)
-    ldefs = {core.src(st.targets[0]): st.value for st in ast.walk(fm) if isinstance(st, ast.Assign) and isinstance(st.targets[0], ast.Name)}
-    ok_comp = False
-    if len(rc) == 1 and isinstance(rc[0], ast.Tuple) and len(rc[0].elts) == 2:
-        first, second = rc[0].elts
-        ok_first = core.src(strip_arr(first)).replace(" ", "").startswith("np.arange(len(p2s_map)")
-        sec = strip_arr(ldefs.get(core.src(second), second))
-        ok_second = isinstance(sec, ast.ListComp) and core.src(sec.elt).replace(" ", "") == "p2p_map[s2p_map[i]]" and core.src(sec.generators[0].iter).replace(" ", "") == "range(len(s2p_map))"
-        ok_comp = ok_first and ok_second
-    rep.instance("R02d", PYDM, "_get_fc_elements_mapping", "compact layout: (arange(number of primitive atoms), primitive index of every supercell atom)", ok_comp,
-                 "in the compact layout the kernel's tests s2p[k] == p2s[j] and row p2s[i] no longer select the images of primitive atom j and the row of atom i", line=fm.lineno)
+    _r02d(rep)
     # ---- R02f ------------------------------------------------------------
     from engine import frames
     from engine.frames import C as CART, L as LAT
@@ -168,6 +144,137 @@ def run(rep: core.Report):
     shared_trunc.run(rep, "R02g")
 
 
+
+# index-map typing for R02d: P primitive index, S supercell index, R supercell index of a representative
+_ATTR = {"p2s_map": ("P", "R"), "s2p_map": ("S", "R"), "p2p_map": ("R", "P")}
+_SUB = {("R", "S"), ("P", "P"), ("S", "S"), ("R", "R")}  # value set -> admissible index set
+
+
+def _maptype(e, env, rel, depth=0):
+    """(domain, codomain) of an index map, ('val', set) of an index value, or None when it cannot be typed"""
+    if isinstance(e, ast.Name):
+        if e.id in env:
+            v = env[e.id]
+            return _maptype(v, env, rel, depth + 1) if isinstance(v, ast.AST) and depth < 6 else (v if not isinstance(v, ast.AST) else None)
+        return _ATTR.get(e.id) or _ATTR.get(e.id.lstrip("_"))
+    if isinstance(e, ast.Attribute):
+        return _ATTR.get(e.attr) or _ATTR.get(e.attr.lstrip("_"))
+    if isinstance(e, ast.Call):
+        f = core.src(e.func)
+        if f in ("np.array", "np.asarray", "np.ascontiguousarray", "list", "tuple") and e.args:
+            return _maptype(e.args[0], env, rel, depth)
+        if f == "np.arange" and len(e.args) == 1:
+            a = e.args[0]
+            if isinstance(a, ast.Call) and core.src(a.func) == "len" and a.args:
+                m = _maptype(a.args[0], env, rel, depth)
+                if m and m[0] != "val":
+                    return (m[0], m[0])
+            return None
+        if f == "np.searchsorted" and len(e.args) >= 2:
+            a, v = _maptype(e.args[0], env, rel, depth), _maptype(e.args[1], env, rel, depth)
+            if a and v and a[0] != "val" and v[0] != "val":
+                return (v[0], f"rank of the value among the sorted entries of a {a[0]}->{a[1]} map")
+            return None
+        if isinstance(e.func, ast.Name) and depth < 4:
+            try:
+                callee = core.find_def(rel, e.func.id)
+            except AnalysisError:
+                return None
+            if isinstance(callee, ast.FunctionDef):
+                cenv = {}
+                for p_, a_ in zip(callee.args.args, e.args):
+                    cenv[p_.arg] = a_ if isinstance(a_, ast.Attribute) else env.get(getattr(a_, "id", None), a_)
+                for st in ast.walk(callee):
+                    if isinstance(st, ast.Assign) and len(st.targets) == 1 and isinstance(st.targets[0], ast.Name):
+                        cenv.setdefault(st.targets[0].id, st.value)
+                rets = [r.value for r in ast.walk(callee) if isinstance(r, ast.Return) and r.value is not None]
+                if len(rets) == 1:
+                    return _maptype(rets[0], cenv, rel, depth + 1)
+        return None
+    if isinstance(e, ast.DictComp) and len(e.generators) == 1:
+        g = e.generators[0]
+        if isinstance(g.iter, ast.Call) and core.src(g.iter.func) == "enumerate" and g.iter.args and isinstance(g.target, ast.Tuple) and len(g.target.elts) == 2:
+            m = _maptype(g.iter.args[0], env, rel, depth)
+            if m and m[0] != "val" and core.src(e.key) == core.src(g.target.elts[1]) and core.src(e.value) == core.src(g.target.elts[0]):
+                return (m[1], m[0])  # the inverse map
+        return None
+    if isinstance(e, ast.ListComp) and len(e.generators) == 1 and not e.generators[0].ifs:
+        g = e.generators[0]
+        dom = None
+        if isinstance(g.iter, ast.Call) and core.src(g.iter.func) == "range" and len(g.iter.args) == 1 and isinstance(g.iter.args[0], ast.Call) and core.src(g.iter.args[0].func) == "len":
+            m = _maptype(g.iter.args[0].args[0], env, rel, depth)
+            if m and m[0] != "val" and isinstance(g.target, ast.Name):
+                dom = m[0]
+                env2 = dict(env)
+                env2[g.target.id] = ("val", dom)
+        elif isinstance(g.target, ast.Name):
+            m = _maptype(g.iter, env, rel, depth)  # for x in N: x is a value of N
+            if m and m[0] != "val":
+                dom = m[0]
+                env2 = dict(env)
+                env2[g.target.id] = ("val", m[1])
+        if dom is None:
+            return None
+        v = _maptype(e.elt, env2, rel, depth)
+        return (dom, v[1]) if v and v[0] == "val" else None
+    if isinstance(e, ast.Subscript):
+        m, ix = _maptype(e.value, env, rel, depth), _maptype(e.slice, env, rel, depth)
+        if m and ix and m[0] != "val" and ix[0] == "val":
+            if (ix[1], m[0]) in _SUB or ix[1] == m[0]:
+                return ("val", m[1])
+            return ("val", f"{m[0]}->{m[1]} map indexed by a {ix[1]} value")
+        return None
+    return None
+
+
+def _r02d(rep):
+    """The two maps handed to the kernel, typed: the kernel tests s2p[k] == p2s[j] and reads row p2s[i]."""
+    fm = core.find_def(PYDM, "_get_fc_elements_mapping")
+    test = [n_ for n_ in fm.body if isinstance(n_, ast.If)]
+    if len(test) != 1:
+        raise AnalysisError("R02d: _get_fc_elements_mapping lost its layout test")
+    tt = core.src(test[0].test).replace(" ", "")
+    m_ = re.fullmatch(r"(\w+)\.shape\[0\](==|!=)(\w+)\.shape\[1\]", tt)
+    if not m_ or m_.group(1) != m_.group(3):
+        raise AnalysisError(f"R02d: layout test '{tt}' is not a comparison of the first two extents of the force constants")
+    full_body = test[0].body if m_.group(2) == "==" else test[0].orelse
+    comp_body = test[0].orelse if m_.group(2) == "==" else test[0].body
+    env = {}
+    for st in ast.walk(fm):
+        if isinstance(st, ast.Assign) and len(st.targets) == 1 and isinstance(st.targets[0], ast.Name):
+            env.setdefault(st.targets[0].id, st.value)
+    for nm in ("p2s_map", "s2p_map"):  # the function's own (mis)use of these names is typed from what they are bound to
+        if nm in env:
+            t_ = _maptype(env[nm], {}, PYDM)
+            if t_ != _ATTR[nm]:
+                raise AnalysisError(f"R02d: local '{nm}' of _get_fc_elements_mapping is bound to something typed {t_}")
+
+    def ret_of(body, what):
+        rs = [r.value for b in body for r in ast.walk(b) if isinstance(r, ast.Return)]
+        if len(rs) != 1 or not isinstance(rs[0], ast.Tuple) or len(rs[0].elts) != 2:
+            raise AnalysisError(f"R02d: the {what} arm of _get_fc_elements_mapping does not return a pair of maps")
+        return [_maptype(x, env, PYDM) for x in rs[0].elts]
+
+    for what, body, want, text in (("full", full_body, [("P", "R"), ("S", "R")], "(p2s_map, s2p_map)"), ("compact", comp_body, [("P", "P"), ("S", "P")], "(identity on primitive indices, primitive index of every supercell atom)")):
+        got = ret_of(body, what)
+        if any(g is None for g in got):
+            raise AnalysisError(f"R02d: cannot type the maps of the {what} layout ({got})")
+        rep.instance("R02d", PYDM, "_get_fc_elements_mapping", f"{what} layout: {text}; typed {got}", got == want,
+                     f"in the {what} layout the maps handed to the kernel are typed {got[0][0]}->{got[0][1]} and {got[1][0]}->{got[1][1]} instead of {want[0][0]}->{want[0][1]} and {want[1][0]}->{want[1][1]} (P primitive index, S supercell index, R representative): the kernel's test s2p[k] == p2s[j] and its row p2s[i] no longer select the images of primitive atom j and the row of atom i — a position found by searching p2s_map in sorted order is a primitive index only while p2s_map is ascending, which Primitive(positions_to_reorder=...) does not keep", line=fm.lineno)
+    init = core.find_def(PYDM, "DynamicalMatrix.__init__")
+    st_ = [a for a in ast.walk(init) if isinstance(a, ast.Assign) and core.src(a.targets[0]) == "self._s2pp_map"]
+    if len(st_) != 1:
+        raise AnalysisError("R02d: DynamicalMatrix.__init__ no longer sets self._s2pp_map once")
+    ienv = {}
+    for a in ast.walk(init):
+        if isinstance(a, ast.Assign) and len(a.targets) == 1 and isinstance(a.targets[0], ast.Name):
+            ienv.setdefault(a.targets[0].id, a.value)
+    got = _maptype(st_[0].value, ienv, PYDM)
+    if got is None:
+        raise AnalysisError(f"R02d: cannot type self._s2pp_map = {core.src(st_[0].value)[:80]}")
+    rep.instance("R02d", PYDM, "DynamicalMatrix.__init__", f"self._s2pp_map typed {got}", got == ("S", "P"), f"self._s2pp_map is typed {got[0]}->{got[1]}, not supercell atom -> primitive index", line=st_[0].lineno)
+
+
 def selftest():
     V = []
     b = lambda name, file, old, new, rule, expect="", **kw: V.append(dict(name=name, kind="break", file=file, old=old, new=new, rule=rule, expect=expect, **kw))
@@ -184,4 +291,6 @@ def selftest():
     from rules import shared_trunc
 
     shared_trunc.variants(b, None, "R02g")
+    n("compact map through a value loop and an inverse table", PYDM, "        s2pp_map = np.array(\n            [p2p_map[s2p_map[i]] for i in range(len(s2p_map))], dtype=\"int64\"\n        )", "        where = {s: k for k, s in enumerate(p2s_map)}\n        s2pp_map = np.array([where[s] for s in s2p_map], dtype=\"int64\")")
+    b("compact map by position in sorted order", PYDM, "        s2pp_map = np.array(\n            [p2p_map[s2p_map[i]] for i in range(len(s2p_map))], dtype=\"int64\"\n        )", "        s2pp_map = np.array(np.searchsorted(p2s_map, s2p_map), dtype=\"int64\")", "R02d", "compact")
     return V
